@@ -157,5 +157,7 @@ class TreeConfig:
         self.levels = levels
         self.gsc = gsc
         self.sprout_mechanism = sprout_mechanism
-        self.options = options
-        self.config_class_to_deme_class = config_class_to_deme_class
+        # Every configuration gets dictionaries of its own: the defaults above are single shared objects, and a
+        # configuration adjusted in place (config.options["hibernation"] = True) must not change all the others.
+        self.options = dict(options)
+        self.config_class_to_deme_class = dict(config_class_to_deme_class)
